@@ -326,11 +326,31 @@ def dash_line_tolerates_trailing_blanks(ctx, P):
               missing=None if (n >= 2 and not bad) else ('the sequence at %s goes from the five dashes straight to the line ending: `-----BEGIN PGP MESSAGE----- ` followed by a line break is refused' % bad[0] if bad else 'dash line sequences not found'))
 
 
+def header_key_prefers_the_separator(ctx, P):
+    """An armor header `Key: Value` is split at the FIRST `": "` of the line; only a line without that separator may be a value-less
+    header ending in `:`.  Testing the trailing colon first mis-splits every header whose value ends in a colon (`Comment: see also:`
+    comes back as key "Comment: see also"), so the header map does not survive armor -> dearmor.  In `header_key` the trailing-colon
+    test runs only after the separator search (the search dominates it)."""
+    b = ctx.body('armor::reader::header_key')
+    if b is None:
+        ctx.missing(P + ':S10-9:header-key-separator-first', 'armor::reader::header_key not found')
+        return
+    pos = [i for i, t in b.calls(r'Iterator::position$')]
+    strips = [i for i, t in b.calls(r'strip_suffix$')]
+    dom = b.dominators()
+    after = [i for i in strips if any(p_ in dom.get(i, ()) for p_ in pos)]
+    ctx.check(P + ':S10-9:header-key-separator-first', 'R-seq', 'header_key looks for the first `": "` before it falls back to a trailing `:` (value-less header)',
+              bool(pos) and bool(after), function=b.path, site=site(b, pos[0]) if pos else None,
+              missing=None if (pos and after) else 'no trailing-colon test is dominated by the separator search: a value that ends in `:` turns the whole line into the key')
+
+
 def run(ctx):
     P = 'C10'
+    header_key_prefers_the_separator(ctx, P)
     stream.r_lost(ctx, P, 'S10-1')
     leading_text_skip(ctx, P)
     dash_line_tolerates_trailing_blanks(ctx, P)
+    stream.finished_flag_set_after_the_writes(ctx, P)
     # no error of the armor / base64 layer is dropped: an undecodable checksum line that becomes "no checksum" is an accepted input
     # whose checksum does not match (R-err of C09 restricted to the armor stack)
     stream.r_err(ctx, P, only=r'(^|<)(armor|base64|line_writer|crc24)::', floor=100)
